@@ -1,7 +1,7 @@
 // reflect: driver for C19 (pogs) and C20 (encoding/text).
 //
-//	C19 modes: values, messages, embed, history
-//	C20 modes: values, strings, history
+//	C19 modes: values, messages, embed, prefilled, history
+//	C20 modes: values, strings, history, registry
 //
 // See NOTES.md.
 package main
@@ -35,6 +35,10 @@ func main() {
 			pr.runMessages(i, rng)
 		case "C19/embed":
 			pr.runEmbed(i, rng)
+		case "C19/prefilled":
+			pr.runPrefilled(i, rng)
+		case "C20/registry":
+			tr.runRegistry(i, rng)
 		case "C19/history":
 			pr.runHistory(i, rng)
 		default:
